@@ -261,6 +261,17 @@ def node_replace(old_kind, action, nid, extra=0, twice=0):
             sx.prove(any(c == 0x580 + nid for c, d in sent), "new local node does not answer", tag + "/new-receives")
     else:
         sx.prove(len(sent) == 0, "a deleted node still answers", tag + "/deleted-answers")
+    # the removed node object lives on: it is detached, and what is done with it later must not reach this network
+    sx.prove(not old.has_network(), "removed node still claims a network", tag + "/still-has-network")
+    if old_kind == "remote":
+        try:
+            late = old.add_sdo(0x6F0, 0x5F0)
+            net.notify(0x5F0, sx.fresh_bytes("late", 8), 7.0)
+            sx.prove(late.responses.empty(), "an SDO channel added to a removed node receives frames of the network "
+                     "it left", tag + "/late-channel")
+        except Exception as e:
+            sx.observe("exc", C.exc_name(e))
+            sx.fail("adding a channel to a removed node raised %s" % C.exc_name(e), tag + "/late-channel-raises")
     sx.reach("node-" + action)
 
 
@@ -305,6 +316,34 @@ def outgoing(n, periodic, modifiable=True):
     sx.reach("outgoing")
 
 
+def concurrent_send(k, tag="C10/concurrent-send"):
+    """Network.send_message is documented as safe to call from several threads: k threads send one frame each
+    (every schedule at lock granularity); the bus sees every frame exactly once, with its own id, data and flag."""
+    netmod = sx.mod("canopen.network")
+    from symx.models import can_model
+    bus = can_model.BusABC()
+    net = netmod.Network(bus)
+    frames = []
+    for i in range(k):
+        cid = sx.fresh_int("id%d" % i, 0, ID_MAX)
+        for c, _, _ in frames:
+            sx.assume(cid != c)
+        frames.append((cid, sx.fresh_bytes("data%d" % i, 8), bool(i % 2) and False))
+    sched = sx.scheduler()
+    for i in range(1, k):
+        sched.spawn(lambda i=i: net.send_message(frames[i][0], frames[i][1]), "sender%d" % i)
+    net.send_message(frames[0][0], frames[0][1])
+    sched.join()
+    sx.prove(len(bus.sent) == k, "one frame on the bus per call", tag + "/count")
+    for cid, data, _ in frames:
+        hits = [m for m in bus.sent if bool(m.arbitration_id == cid)]
+        sx.prove(len(hits) == 1, "every caller's frame is sent exactly once", tag + "/once")
+        if len(hits) == 1:
+            sx.prove(sx.eq_bytes(sx.mkbytes(sx.items(hits[0].data)), data) & (hits[0].is_extended_id == (cid > 0x7FF)),
+                     "frame carries its caller's data and format", tag + "/content")
+    sx.reach("concurrent-send")
+
+
 def listener():
     netmod = sx.mod("canopen.network")
     net = netmod.Network()
@@ -346,6 +385,27 @@ def scanner(k):
              "scanner order of first appearance", "C10/scanner/order")
     net.scanner.reset()
     sx.prove(len(net.scanner.nodes) == 0, "reset clears", "C10/scanner/reset")
+    # after reset() the scanner starts from scratch: the same frames are listed again, a further frame as well
+    ref2 = []
+    ids = [sx.fresh_int("again", 0, ID_MAX)] if k <= 2 else []      # (k = 3: the earlier nodes only)
+    for cid in ids:
+        net.notify(cid, b"", 0.0)
+    for node in ref:
+        net.notify(0x700 + node, b"\x05", 0.0)
+    for cid in ids:
+        node = cid & 0x7F
+        fc = cid - node
+        if bool(sx.any_([fc == s_ for s_ in SERVICE_CODES]) & (node != 0)):
+            ref2.append(node)
+    for node in ref:
+        if not bool(sx.any_([node == r for r in ref2])):
+            ref2.append(node)
+    got2 = list(net.scanner.nodes)
+    sx.observe("nodes2", got2)
+    sx.prove(len(got2) == len(ref2) and sx.all_([a == b for a, b in zip(got2, ref2)]) is not False,
+             "nodes seen before reset() are listed again afterwards", "C10/scanner/after-reset")
+    if len(got2) == len(ref2):
+        sx.prove(sx.all_([a == b for a, b in zip(got2, ref2)]), "order after reset()", "C10/scanner/after-reset-order")
     sx.reach("scanner")
 
 
@@ -372,6 +432,8 @@ def jobs(tier):
             out.append(dict(func="outgoing", params=dict(n=n, periodic=periodic)))
             if periodic:
                 out.append(dict(func="outgoing", params=dict(n=n, periodic=periodic, modifiable=False)))
+    for k in (2, 3):
+        out.append(dict(func="concurrent_send", params=dict(k=k), weight=3 ** k))
     out.append(dict(func="listener", params={}))
     for k in (1, 2, 3):
         out.append(dict(func="scanner", params=dict(k=k), weight=10 ** k))
@@ -398,7 +460,7 @@ META = dict(
     assumptions=[],
     stubs=["can (recording model)", "dict displays -> SymDict", "threading.Lock", "queue", "logging"],
     required_reach=["step", "op-subscribe", "op-unsubscribe", "op-unsubscribe-missing", "op-notify", "history",
-                    "node-delete", "node-remote", "node-local", "node-extra-channel", "node-same", "outgoing", "outgoing-update", "listener", "scanner"],
+                    "node-delete", "node-remote", "node-local", "node-extra-channel", "node-same", "outgoing", "outgoing-update", "concurrent-send", "listener", "scanner"],
     limits=dict(quick=dict(max_decisions=20000), thorough=dict(max_decisions=20000, job_timeout_s=3000)),
     validate_every=dict(quick=11, thorough=101),
     max_validate=dict(quick=60, thorough=60),
